@@ -43,7 +43,7 @@ try:
         res["demo_changed"], res["demo_changed_out"] = demo(wt + "/src")
         res["demo_ok"] = res["demo_unchanged"] == 0 and res["demo_changed"] not in (0, 124)
         if "--tests" in args:
-            env = dict(os.environ, PYTHONPATH=wt + "/src:/verif/harness/shims")
+            env = dict(os.environ, PYTHONPATH=wt + "/src:/verif/harness/shims", PYTHONHASHSEED="0")   # tests/test_pref_profile.py::test_create_df depends on the hash seed on unchanged code
             t0 = time.time()
             r = subprocess.run(["/venv/bin/python", "-m", "pytest", "-q", "-p", "no:cacheprovider", "-n", "8", "-x"], cwd=wt, env=env, capture_output=True, text=True)
             tail = (r.stdout.strip().splitlines() or [""])[-1]
